@@ -83,7 +83,10 @@ class MieLens(ScatteringTheory):
         illum_polarization : 2-element tuple
             The (x, y) field polarizations.
         """
-        index_ratio = scatterer.n / medium_index
+        # The Mie coefficients in mielensfunctions follow van de Hulst,
+        # who writes an absorbing index as n - ik; holopy (like Bohren &
+        # Huffman and the fortran Mie code) uses n + ik.
+        index_ratio = np.conj(scatterer.n / medium_index)
         size_parameter = medium_wavevec * scatterer.r
 
         rho, phi, z = positions
